@@ -8,6 +8,9 @@ VARIABLES l
 vars == <<lockVars, l>>
 Max2(a, b) == IF a > b THEN a ELSE b
 Track == TLCSet(1, Max2(TLCGet(1), l))
+\* A state that breaks a Layer A invariant is not an explanation: it is pruned (and does not
+\* count as progress), so an invariant can only fail the validation by leaving no explanation.
+TrackOk == MutexInv /\ Track
 R == Rec[l]
 Is(k) == l <= N /\ R.k = k
 Next1 == l' = l + 1
